@@ -229,8 +229,8 @@ int main(int argc, char ** argv)
 {
     const char * file = NULL, * src = NULL, * entry = "main", * dumpf = NULL, * tracef = NULL, * resf = NULL, * bdump = NULL;
     unsigned int mem = DEFAULT_VM_MEM_SIZE, stack = DEFAULT_VM_STACK_SIZE; int gcmode = 0, execs = 1, c, ret, k;
-    const char * pre[16]; int npre = 0; program * preprog[16]; char * calls = NULL; char cwd0[4096];
-    while ((c = getopt(argc, argv, "f:e:m:s:g:n:D:T:L:R:x:P:c:B:")) != -1)
+    const char * pre[16]; int npre = 0; program * preprog[16]; char * calls = NULL; char cwd0[4096]; const char * post = NULL; program * postprog = NULL;
+    while ((c = getopt(argc, argv, "f:e:m:s:g:n:D:T:L:R:x:P:c:B:Q:")) != -1)
     {
         switch (c)
         {
@@ -240,6 +240,7 @@ int main(int argc, char ** argv)
         case 'D': dumpf = optarg; break; case 'T': tracef = optarg; break; case 'L': maxlines = strtoull(optarg, NULL, 10); break;
         case 'R': resf = optarg; break; case 'x': execs = atoi(optarg); break;
         case 'P': if (npre < 16) pre[npre++] = optarg; break; case 'c': calls = strdup(optarg); break;
+        case 'Q': post = optarg; break;
         case 'B': bdump = optarg; break;
         default: return 2;
         }
@@ -288,6 +289,15 @@ int main(int argc, char ** argv)
         finish("compile-fail", ret); program_delete(prog); return 3;
     }
     if (dumpf) { FILE * df = fopen(dumpf, "w"); dump_module(df, prog); fclose(df); }
+    if (post != NULL)
+    {
+        /* another program compiled AFTER the one that is going to run (and kept alive): run-time diagnostics must still be labelled
+           with, and stored in, the running program */
+        int r1;
+        postprog = program_new();
+        r1 = strncmp(post, "@file:", 6) == 0 ? nev_compile_file(post + 6, postprog) : nev_compile_str(post, postprog);
+        if (rf) fprintf(rf, "postcompile %d msgs=%u\n", r1, postprog->msg_count);
+    }
     {
     /* call list: either -c "entry:a,b;entry:c" or `execs` times (entry, argv) */
     char * callv[64]; int ncalls = 0;
@@ -355,10 +365,17 @@ int main(int argc, char ** argv)
         }
     }
     }
+    if (rf)
+    {
+        unsigned int q;
+        for (q = 0; q < prog->msg_count; q++) { unsigned char * t = (unsigned char *)prog->msg_array[q]; fprintf(rf, "emsg "); for (; t && *t; t++) fprintf(rf, "%02x", *t); fprintf(rf, "\n"); }
+        if (postprog != NULL) fprintf(rf, "postmsgs %u\n", postprog->msg_count);
+    }
     finish("return", ret);
     never_verif_step_hook = NULL;
     if (machine) vm_delete(machine);
     if (!bdump) program_delete(prog);
+    if (postprog != NULL) program_delete(postprog);
     for (k = 0; k < npre; k++) { if (preprog[k] != NULL) { if (rf) fprintf(rf, "premsgs %d %u\n", k, preprog[k]->msg_count); program_delete(preprog[k]); } }
     if (tf) fclose(tf);
     if (rf) fclose(rf);
